@@ -41,7 +41,7 @@ Theorem C05_interleaving_irrelevant : forall k fs c1 c2, cache_get c1 k = cache_
 Proof. exact interleaving_irrelevant. Qed.
 Print Assumptions C05_interleaving_irrelevant.
 
-(* the defect repaired by fix fcb8d4f (F4): rotating the partially sent frame to the very back lets a later
+(* the defect repaired by fix fbd3cfd (F4): rotating the partially sent frame to the very back lets a later
    frame of the SAME stream (here the completion) go out between its fragments *)
 Theorem C05_rotate_back_refuted :
   map (fun g => (ffollows g, lenN (fdata g))) (wire f4_run) = [(true, 58); (false, 0); (false, 42)].
